@@ -80,18 +80,19 @@ def cmp_state(exp_rows, got_rows, note):
         return None
     e = {json.dumps(r[0]): r[1] for r in exp_rows}
     g = {json.dumps(r[0]): r[1] for r in got_rows}
-    detail = "expected contents %s, scan returns %s" % (exp_rows, got_rows)
     if len(g) != len(got_rows):
-        return "state-differs: key-listed-twice", detail
-    if set(g) > set(e) and all(g[k] == e[k] for k in e):
-        return "state-differs: keys-survive", detail
-    if set(g) < set(e) and all(g[k] == e[k] for k in g):
-        return "state-differs: keys-missing", detail
-    if set(g) == set(e) and g == e:
-        return "state-differs: wrong-order", detail
-    if set(g) == set(e):
-        return "state-differs: wrong-value", detail
-    return "state-differs: other-keys", detail
+        kind = "a key is listed twice"
+    elif set(g) > set(e) and all(g[k] == e[k] for k in e):
+        kind = "keys survive"
+    elif set(g) < set(e) and all(g[k] == e[k] for k in g):
+        kind = "keys are missing"
+    elif g == e:
+        kind = "wrong order"
+    elif set(g) == set(e):
+        kind = "wrong values"
+    else:
+        kind = "other keys"
+    return "state-differs", "%s: specified contents %s, forward scan returns %s" % (kind, exp_rows, got_rows)
 
 
 def cmp_step(st, got):
@@ -124,15 +125,13 @@ def cmp_step(st, got):
         if t != "ok":
             shape = "error: %s" % got.get("err", "?")[:60]
     elif et == "at":
-        if t != "at":
-            shape = "invalid-where-key-exists"
-        elif got.get("k") != exp["k"]:
-            shape = "valid-with-empty-key" if got.get("k") == [] else "wrong-key"
+        if t != "at" or got.get("k") != exp["k"]:
+            shape = "wrong-position"      # invalid although a key qualifies, or valid at another key
         elif got.get("v") != exp["v"]:
             shape = "wrong-value"
     elif et == "inv":
         if t != "inv":
-            shape = "valid-with-empty-key" if got.get("k") == [] else "valid-where-no-key"
+            shape = "wrong-position"      # valid although no key qualifies
     else:
         raise Inconclusive("unknown answer kind %r" % et)
     if shape:
@@ -147,8 +146,11 @@ def cmp_step(st, got):
 
 def signature(drv, st, shape):
     op = OPNAME.get(st["op"], st["op"])
-    if st["op"] in POSITIONING or st["w"].startswith("empty-"):
-        return "kv %s %s %s: %s" % (drv, op, st["w"], shape)
+    w = st["w"]
+    if w.startswith("empty-prefix"):
+        w = "empty-prefix"
+    if st["op"] in POSITIONING or w.startswith("empty-"):
+        return "kv %s %s %s: %s" % (drv, op, w, shape)
     return "kv %s %s: %s" % (drv, op, shape)
 
 
@@ -181,7 +183,8 @@ def first_divergence(drv, beh, out):
             raise Inconclusive("no final scan from the harness on %s" % drv)
         d = cmp_state(rows(beh["f"]), out["final"], note)
         if d:
-            last = "end" if beh["m"] == "top" else "close-of-open-%s-with-nil" % beh["m"]
+            # a session left open by the end of the history was closed with a nil return
+            last = {"top": "end", "bulk": "BulkWrite(return)", "view": "View(return)"}.get(beh["m"], "Update(commit)")
             return dict(step=len(h), shape=d[0], signature="kv %s %s: %s" % (drv, last, d[0]),
                         what="after the history (%s) %s" % (last, d[1]), op="Final", w=beh["m"])
     return None
@@ -470,15 +473,28 @@ def abort_effect(b, r):
 
 
 def merge_inverted(found):
-    """true-for-absent and false-for-present at one call site are one defect (an inverted test)"""
+    """one defect, one signature: (1) a divergence seen with the empty key/prefix AND with ordinary keys at the
+    same call and of the same shape is not about the empty key; (2) true-for-absent and false-for-present at one
+    call site are an inverted test"""
+    def move(src, dst):
+        found.setdefault(dst, [])
+        found[dst] += found.pop(src)
+        for o in found[dst]:
+            o["signature"] = dst
+    for sig in list(found):
+        for w in (" empty-key", " empty-prefix"):
+            if w + ": " in sig and sig.replace(w + ": ", ": ") in found:
+                move(sig, sig.replace(w + ": ", ": "))
     for sig in list(found):
         if sig.endswith(": true-for-absent"):
             other = sig[: -len("true-for-absent")] + "false-for-present"
             if other in found:
                 base = sig[: -len(": true-for-absent")]
-                found[base + ": inverted"] = found.pop(sig) + found.pop(other)
-                for o in found[base + ": inverted"]:
-                    o["signature"] = base + ": inverted"
+                move(sig, base + ": inverted")
+                move(other, base + ": inverted")
+    for sig in list(found):
+        if " empty-key: true-for-absent" in sig and sig.replace(" empty-key: true-for-absent", ": inverted") in found:
+            move(sig, sig.replace(" empty-key: true-for-absent", ": inverted"))
 
 
 def corrupt_one(behs, how):
